@@ -75,8 +75,9 @@ func staticClosure(w *World, roots ...*ssa.Function) []*ssa.Function {
 func genC09(w *World, res *CheckResult) {
 	// Run side
 	g := genRun(w)
-	res.Obls = append(res.Obls, selectObls(g.obls, `/frame$`, `/frame-at-panic$`, `/env-call:args-not-owned$`, `inv-(init|pres)\[(stack-own|scopes-own|scopes-fresh|prog)\]`, `^vm\.VM\.Run/pre-sat$`, `inv-sat$`)...)
+	res.Obls = append(res.Obls, selectObls(g.obls, `/frame$`, `/frame-at-panic$`, `/env-call:args-not-owned$`, `^vm\.VM\.Run/loop:0/entry\[`, `^vm\.VM\.Run/fields-reset`, `inv-(init|pres)\[(stack-own|scopes-own|scopes-fresh|prog)\]`, `^vm\.VM\.Run/pre-sat$`, `inv-sat$`)...)
 	res.Obls = append(res.Obls, genPure(w)...)
+	genBindFrame(w, res)
 	res.Assumptions = append(res.Assumptions, g.notes...)
 	res.Functions = append(res.Functions, g.funcs...)
 	// Compile side: effects
@@ -85,7 +86,8 @@ func genC09(w *World, res *CheckResult) {
 		res.Obls = append(res.Obls, missingObl("expr.Compile/exists", "function not found"))
 		return
 	}
-	fns := staticClosure(w, root)
+	fns := libraryFuncs(w) // every function of the library packages (options such as expr.Operator run before Compile)
+	_ = root
 	// package-level state: no function that Compile or Run can reach keeps state in a package-level
 	// variable (a cache, a counter, a pool): such a variable is only ever loaded, and nothing outside
 	// its package initialiser stores to it
@@ -302,6 +304,33 @@ func globalUseIsState(w *World, in ssa.Instruction, g *ssa.Global) string {
 		if !w.globalStoredOnlyByInit(g) {
 			return "reads " + g.Pkg.Pkg.Name() + "." + g.Name() + ", which is assigned outside its package initialiser"
 		}
+		// the value loaded from the variable (a map, slice or pointer) must not be written through
+		if x.Referrers() != nil {
+			for _, r := range *x.Referrers() {
+				switch y := r.(type) {
+				case *ssa.MapUpdate:
+					if y.Map == ssa.Value(x) {
+						return "updates the package-level map " + g.Pkg.Pkg.Name() + "." + g.Name()
+					}
+				case *ssa.IndexAddr:
+					if y.X == ssa.Value(x) && y.Referrers() != nil {
+						for _, rr := range *y.Referrers() {
+							if st, ok := rr.(*ssa.Store); ok && st.Addr == ssa.Value(y) {
+								return "writes an element of the package-level slice " + g.Pkg.Pkg.Name() + "." + g.Name()
+							}
+						}
+					}
+				case *ssa.FieldAddr:
+					if y.X == ssa.Value(x) && y.Referrers() != nil {
+						for _, rr := range *y.Referrers() {
+							if st, ok := rr.(*ssa.Store); ok && st.Addr == ssa.Value(y) {
+								return "writes a field of the object the package-level variable " + g.Pkg.Pkg.Name() + "." + g.Name() + " points to"
+							}
+						}
+					}
+				}
+			}
+		}
 		return ""
 	case *ssa.FieldAddr:
 		if onlyLoads(x) && w.globalStoredOnlyByInit(g) {
@@ -363,4 +392,70 @@ func (w *World) globalStoredOnlyByInit(g *ssa.Global) bool {
 	}
 	storedOnlyByInitMemo[g] = res
 	return res
+}
+
+// genBindFrame: binding an error to the program's source (done by VM.Run's
+// recover handler on the shared Program.Source, and by Check) reads the source
+// and writes only the error value: the frame of file.Error.Bind, verified on
+// its body with Snippet / findLineOffset inlined.
+func genBindFrame(w *World, res *CheckResult) {
+	n := "file.Error.Bind"
+	fn, ct := w.Func(n), w.Contracts[n]
+	if fn == nil || ct == nil {
+		res.Obls = append(res.Obls, missingObl(n+"/exists", "function or contract missing"))
+		return
+	}
+	e := NewExec(w)
+	saved := map[string]bool{}
+	for _, x := range []string{n, "file.Source.Snippet", "file.Source.findLineOffset", "file.Source.updateOffsets"} {
+		saved[x] = w.forceInline[x]
+		w.forceInline[x] = true
+	}
+	func() {
+		defer func() {
+			if r := recover(); r != nil {
+				// the contract of Bind / updateOffsets no longer fits the code: the frame is not established
+				o := missingObl(n+"/frame:assigns", fmt.Sprint("the contracts of file.Error.Bind and its callees could not be evaluated on the current code: ", r))
+				o.Status = "undecided"
+				res.Obls = append(res.Obls, o)
+			}
+		}()
+		e.VerifyFunc(fn, ct, nil)
+	}()
+	for x, v := range saved {
+		if v {
+			w.forceInline[x] = true
+		} else {
+			delete(w.forceInline, x)
+		}
+	}
+	for _, o := range e.obls {
+		if strings.Contains(o.Name, "/frame") || strings.HasSuffix(o.Name, "/pre-sat") || strings.HasSuffix(o.Name, "/cover:returns") || strings.Contains(o.Name, "/post[") {
+			res.Obls = append(res.Obls, o)
+		}
+	}
+	res.Assumptions = append(res.Assumptions, e.Notes()...)
+	res.Functions = append(res.Functions, n, "file.Source.Snippet", "file.Source.findLineOffset")
+}
+
+
+// libraryFuncs: all functions (closures included) of the library packages; generators, docs and commands excluded.
+func libraryFuncs(w *World) []*ssa.Function {
+	var all []*ssa.Function
+	for _, f := range w.allFuncs() {
+		p := f.Pkg
+		for pf := f; p == nil && pf != nil; pf = pf.Parent() {
+			p = pf.Pkg
+		}
+		if p == nil || !strings.HasPrefix(p.Pkg.Path(), modulePath) || len(f.Blocks) == 0 {
+			continue
+		}
+		rel := strings.TrimPrefix(p.Pkg.Path(), modulePath)
+		if strings.HasPrefix(rel, "/vm/generate") || strings.HasPrefix(rel, "/docgen") || strings.HasPrefix(rel, "/docs") || strings.HasPrefix(rel, "/cmd") {
+			continue
+		}
+		all = append(all, f)
+	}
+	sort.Slice(all, func(i, j int) bool { return shortName(all[i]) < shortName(all[j]) })
+	return all
 }
